@@ -41,7 +41,7 @@ def r08a(ctx, rep):
     for fld, cs in _receiver_fields(clear, cd).items():
         if any(c.resolved.endswith('::clear') for c in cs):
             cleared.add(fld)
-    rep.floor('R08a', 'slab fields cleared by SlabRouter::clear', len(cleared), 7)
+    rep.floor('R08a', 'slab fields cleared by SlabRouter::clear', len(cleared), 4)
     # restore path after the clear
     rd = A.Defs(rest)
     cl = A.calls_to(rest, SR + 'clear')
